@@ -184,8 +184,16 @@ def run_dir(kind, tier, seed, C):
         for f in (name + ".vo", name + ".glob", name + ".vok", name + ".vos", "." + name + ".aux"):
             try: os.remove(os.path.join(C["bdir"], f))
             except OSError: pass
+    # distribution of what the histories contained: operations, faults, run outcomes as the implementation reported them
+    dist = {}
+    for t in terms:
+        for k in ("OpAdd", "OpEditCfg", "OpEditProfile", "OpTouchCfg", "OpDeleteFile", "OpTear", "OpReplaceUser", "OpSupplyCsr", "OpRemove", "FailNoWrite", "Torn", "DoneThenDie"):
+            dist[k] = dist.get(k, 0) + t.count(k + " ") + t.count(k + ")")
+        obs = t[t.index("], [") + 3:] if "], [" in t else ""
+        for code, name in ((1, "run ok"), (2, "run error"), (3, "panic"), (4, "died at a write"), (5, "nothing to do"), (6, "refused"), (7, "plan error"), (8, "aborted at prompt")):
+            dist[name] = dist.get(name, 0) + len(re.findall(r"\(%d, \[[\d;]*\], \[" % code, obs))
     return {"cases": len(terms), "nontrivial": len(set(terms)), "samples": [d[:700] for d in descr[1:len(descr):max(1, len(descr) // 3)]][:3], "violations": viol, "error": err,
-            "steps": steps, "runs": runs}
+            "steps": steps, "runs": runs, "distribution": {k: v for k, v in dist.items() if v}}
 
 KEY_HEADER = """From Coq Require Import List NArith ZArith Bool String.
 From Coq.Strings Require Import Byte.
